@@ -37,8 +37,17 @@ type ProofOracle struct {
 	// Peer is the counterparty chain state claims are checked against; set by the harness around
 	// every core call (every worker owns its application objects, so there is no sharing).
 	Peer *State
+	// Recorded, when non-nil, replaces the peer: the conformance replay has no counterparty chain, it
+	// accepts exactly the claims that were verified against the real counterparty in the explored run.
+	Recorded map[string]int
+	// Log receives every verified claim (set while a recorded chain handles an IBC message)
+	Log *[]Claim
 	// Checked counts verified claims (evidence).
 	Checked, Refused int
+}
+
+func claimKey(store string, key, value []byte) string {
+	return fmt.Sprintf("%s|%x|%x|%v", store, key, value, value == nil)
 }
 
 var oracleMu sync.Mutex
@@ -68,8 +77,11 @@ func OracleFor(k *ibckeeper.Keeper) *ProofOracle {
 	return o
 }
 
+// errUseRecorded tells the verifier to consult the recorded claims.
+var errUseRecorded = fmt.Errorf("use recorded claims")
+
 func (o *ProofOracle) lookup(ctx sdk.Context, clientID string, height ibcexported.Height, path ibcexported.Path) ([]byte, error) {
-	if o.Peer == nil {
+	if o.Peer == nil && o.Recorded == nil {
 		return nil, fmt.Errorf("verif proof oracle: no counterparty state attached")
 	}
 	// the real module needs a consensus state at the proof height and height <= latest height
@@ -83,6 +95,9 @@ func (o *ProofOracle) lookup(ctx sdk.Context, clientID string, height ibcexporte
 	if !ok || len(mp.KeyPath) != 2 {
 		return nil, fmt.Errorf("verif proof oracle: unexpected path %T %v", path, path)
 	}
+	if o.Recorded != nil {
+		return nil, errUseRecorded
+	}
 	key := o.Peer.C.App.GetKey(string(mp.KeyPath[0]))
 	if key == nil {
 		return nil, fmt.Errorf("verif proof oracle: counterparty has no store %q", mp.KeyPath[0])
@@ -90,8 +105,29 @@ func (o *ProofOracle) lookup(ctx sdk.Context, clientID string, height ibcexporte
 	return o.Peer.Ctx.MultiStore().GetKVStore(key).Get(mp.KeyPath[1]), nil
 }
 
+func (o *ProofOracle) recorded(path ibcexported.Path, value []byte) error {
+	mp := path.(commitmenttypesv2.MerklePath)
+	k := claimKey(string(mp.KeyPath[0]), mp.KeyPath[1], value)
+	if o.Recorded[k] > 0 {
+		o.Checked++
+		return nil
+	}
+	o.Refused++
+	return fmt.Errorf("verif proof oracle: claim %s was never verified in the explored run", k)
+}
+
+func (o *ProofOracle) log(path ibcexported.Path, value []byte) {
+	if o.Log != nil {
+		mp := path.(commitmenttypesv2.MerklePath)
+		*o.Log = append(*o.Log, Claim{Store: string(mp.KeyPath[0]), Key: append([]byte{}, mp.KeyPath[1]...), Value: value})
+	}
+}
+
 func (o *ProofOracle) VerifyMembership(ctx sdk.Context, clientID string, height ibcexported.Height, delayTimePeriod, delayBlockPeriod uint64, proof []byte, path ibcexported.Path, value []byte) error {
 	got, err := o.lookup(ctx, clientID, height, path)
+	if err == errUseRecorded {
+		return o.recorded(path, value)
+	}
 	if err != nil {
 		o.Refused++
 		return err
@@ -101,11 +137,15 @@ func (o *ProofOracle) VerifyMembership(ctx sdk.Context, clientID string, height 
 		return fmt.Errorf("verif proof oracle: counterparty stores %x under %v, claimed %x", got, path, value)
 	}
 	o.Checked++
+	o.log(path, append([]byte{}, value...))
 	return nil
 }
 
 func (o *ProofOracle) VerifyNonMembership(ctx sdk.Context, clientID string, height ibcexported.Height, delayTimePeriod, delayBlockPeriod uint64, proof []byte, path ibcexported.Path) error {
 	got, err := o.lookup(ctx, clientID, height, path)
+	if err == errUseRecorded {
+		return o.recorded(path, nil)
+	}
 	if err != nil {
 		o.Refused++
 		return err
@@ -115,6 +155,7 @@ func (o *ProofOracle) VerifyNonMembership(ctx sdk.Context, clientID string, heig
 		return fmt.Errorf("verif proof oracle: counterparty stores %x under %v, claimed absent", got, path)
 	}
 	o.Checked++
+	o.log(path, nil)
 	return nil
 }
 
@@ -147,23 +188,33 @@ func clientOfChannel(ctx sdk.Context, k *ibckeeper.Keeper, port, ch string) stri
 	return conn.ClientId
 }
 
-// coreTx runs one core message as a transaction of s's current block against peer.
-func coreTx(s *State, k *ibckeeper.Keeper, peer *State, msg interface{ ValidateBasic() error }, f func(ctx sdk.Context) error) (evs []abci.Event, err error, pan string) {
+// coreTx sends one core message to chain s as a transaction of its current block, through the
+// application's message router exactly like any other message (so it is also recorded for the
+// conformance replay); proofs are answered against peer.
+func coreTx(s *State, k *ibckeeper.Keeper, peer *State, msg sdk.Msg) (res TxResult) {
 	o := OracleFor(k)
 	o.Peer = peer
-	defer func() { o.Peer = nil }()
-	evs, pan = s.RunTx(func(ctx sdk.Context) bool {
-		if e := msg.ValidateBasic(); e != nil {
-			err = e
-			return false
-		}
-		if e := f(ctx); e != nil {
-			err = e
-			return false
-		}
-		return true
-	})
-	return evs, err, pan
+	if s.C.Rec != nil {
+		o.Log = &s.C.Rec.Claims
+	}
+	defer func() { o.Peer, o.Log = nil, nil }()
+	return s.Deliver(msg)
+}
+
+// response unpacks the typed response of a delivered message.
+func response[T any](r TxResult) (out T, ok bool) {
+	if r.Res == nil || len(r.Res.MsgResponses) == 0 {
+		return out, false
+	}
+	out, ok = r.Res.MsgResponses[0].GetCachedValue().(T)
+	return out, ok
+}
+
+func txErr(r TxResult) error {
+	if r.Panic != "" {
+		return fmt.Errorf("panic: %s", r.Panic)
+	}
+	return r.Err
 }
 
 // CoreOpenConnection runs the four connection-handshake messages through the core message servers
@@ -175,24 +226,24 @@ func CoreOpenConnection(p *State, pk *ibckeeper.Keeper, c *State, ck *ibckeeper.
 	// INIT on the consumer
 	initMsg := conntypes.NewMsgConnectionOpenInit(l.CClient, l.PClient, prefixP, vers[0], 0, relayer())
 	l.CConn = conntypes.FormatConnectionIdentifier(ck.ConnectionKeeper.GetNextConnectionSequence(c.Ctx))
-	if _, err, pan := coreTx(c, ck, p, initMsg, func(ctx sdk.Context) error { _, e := ck.ConnectionOpenInit(ctx, initMsg); return e }); err != nil || pan != "" {
-		return fmt.Errorf("connection init: %v %s", err, pan)
+	if err := txErr(coreTx(c, ck, p, initMsg)); err != nil {
+		return fmt.Errorf("connection init: %w", err)
 	}
 	// TRY on the provider
 	l.PConn = conntypes.FormatConnectionIdentifier(pk.ConnectionKeeper.GetNextConnectionSequence(p.Ctx))
 	tryMsg := conntypes.NewMsgConnectionOpenTry(l.PClient, l.CConn, l.CClient, prefixC, vers, 0, fakeProof, proofHeight(p.Ctx, pk, l.PClient), relayer())
-	if _, err, pan := coreTx(p, pk, c, tryMsg, func(ctx sdk.Context) error { _, e := pk.ConnectionOpenTry(ctx, tryMsg); return e }); err != nil || pan != "" {
-		return fmt.Errorf("connection try: %v %s", err, pan)
+	if err := txErr(coreTx(p, pk, c, tryMsg)); err != nil {
+		return fmt.Errorf("connection try: %w", err)
 	}
 	// ACK on the consumer
 	ackMsg := conntypes.NewMsgConnectionOpenAck(l.CConn, l.PConn, fakeProof, proofHeight(c.Ctx, ck, l.CClient), vers[0], relayer())
-	if _, err, pan := coreTx(c, ck, p, ackMsg, func(ctx sdk.Context) error { _, e := ck.ConnectionOpenAck(ctx, ackMsg); return e }); err != nil || pan != "" {
-		return fmt.Errorf("connection ack: %v %s", err, pan)
+	if err := txErr(coreTx(c, ck, p, ackMsg)); err != nil {
+		return fmt.Errorf("connection ack: %w", err)
 	}
 	// CONFIRM on the provider
 	confMsg := conntypes.NewMsgConnectionOpenConfirm(l.PConn, fakeProof, proofHeight(p.Ctx, pk, l.PClient), relayer())
-	if _, err, pan := coreTx(p, pk, c, confMsg, func(ctx sdk.Context) error { _, e := pk.ConnectionOpenConfirm(ctx, confMsg); return e }); err != nil || pan != "" {
-		return fmt.Errorf("connection confirm: %v %s", err, pan)
+	if err := txErr(coreTx(p, pk, c, confMsg)); err != nil {
+		return fmt.Errorf("connection confirm: %w", err)
 	}
 	return nil
 }
@@ -200,18 +251,15 @@ func CoreOpenConnection(p *State, pk *ibckeeper.Keeper, c *State, ck *ibckeeper.
 // CoreChanOpenInit sends MsgChannelOpenInit to chain s; returns the new channel id.
 func CoreChanOpenInit(s *State, k *ibckeeper.Keeper, peer *State, port, cpPort string, order channeltypes.Order, hops []string, version string) (string, error) {
 	msg := channeltypes.NewMsgChannelOpenInit(port, version, order, hops, cpPort, relayer())
-	var chID string
-	_, err, pan := coreTx(s, k, peer, msg, func(ctx sdk.Context) error {
-		r, e := k.ChannelOpenInit(ctx, msg)
-		if e == nil {
-			chID = r.ChannelId
-		}
-		return e
-	})
-	if pan != "" {
-		return "", fmt.Errorf("panic: %s", pan)
+	r := coreTx(s, k, peer, msg)
+	if err := txErr(r); err != nil {
+		return "", err
 	}
-	return chID, err
+	resp, ok := response[*channeltypes.MsgChannelOpenInitResponse](r)
+	if !ok {
+		return "", fmt.Errorf("no MsgChannelOpenInitResponse")
+	}
+	return resp.ChannelId, nil
 }
 
 // CoreChanOpenTry sends MsgChannelOpenTry to chain s.
@@ -224,38 +272,27 @@ func CoreChanOpenTry(s *State, k *ibckeeper.Keeper, peer *State, port, cpPort, c
 		client = conn.ClientId
 	}
 	msg := channeltypes.NewMsgChannelOpenTry(port, "", order, hops, cpPort, cpChan, cpVersion, fakeProof, proofHeight(s.Ctx, k, client), relayer())
-	var chID string
-	_, err, pan := coreTx(s, k, peer, msg, func(ctx sdk.Context) error {
-		r, e := k.ChannelOpenTry(ctx, msg)
-		if e == nil {
-			chID = r.ChannelId
-		}
-		return e
-	})
-	if pan != "" {
-		return "", fmt.Errorf("panic: %s", pan)
+	r := coreTx(s, k, peer, msg)
+	if err := txErr(r); err != nil {
+		return "", err
 	}
-	return chID, err
+	resp, ok := response[*channeltypes.MsgChannelOpenTryResponse](r)
+	if !ok {
+		return "", fmt.Errorf("no MsgChannelOpenTryResponse")
+	}
+	return resp.ChannelId, nil
 }
 
 // CoreChanOpenAck sends MsgChannelOpenAck to chain s.
 func CoreChanOpenAck(s *State, k *ibckeeper.Keeper, peer *State, port, chID, cpChan, cpVersion string) error {
 	msg := channeltypes.NewMsgChannelOpenAck(port, chID, cpChan, cpVersion, fakeProof, proofHeight(s.Ctx, k, clientOfChannel(s.Ctx, k, port, chID)), relayer())
-	_, err, pan := coreTx(s, k, peer, msg, func(ctx sdk.Context) error { _, e := k.ChannelOpenAck(ctx, msg); return e })
-	if pan != "" {
-		return fmt.Errorf("panic: %s", pan)
-	}
-	return err
+	return txErr(coreTx(s, k, peer, msg))
 }
 
 // CoreChanOpenConfirm sends MsgChannelOpenConfirm to chain s.
 func CoreChanOpenConfirm(s *State, k *ibckeeper.Keeper, peer *State, port, chID string) error {
 	msg := channeltypes.NewMsgChannelOpenConfirm(port, chID, fakeProof, proofHeight(s.Ctx, k, clientOfChannel(s.Ctx, k, port, chID)), relayer())
-	_, err, pan := coreTx(s, k, peer, msg, func(ctx sdk.Context) error { _, e := k.ChannelOpenConfirm(ctx, msg); return e })
-	if pan != "" {
-		return fmt.Errorf("panic: %s", pan)
-	}
-	return err
+	return txErr(coreTx(s, k, peer, msg))
 }
 
 // CoreRecv sends MsgRecvPacket to the receiving chain s (peer = the sender).
@@ -266,23 +303,17 @@ func CoreRecv(s *State, k *ibckeeper.Keeper, peer *State, pkt channeltypes.Packe
 	}
 	msg := channeltypes.NewMsgRecvPacket(pkt, fakeProof, proofHeight(s.Ctx, k, client), relayer())
 	var res RecvResult
-	noop := false
-	evs, err, pan := coreTx(s, k, peer, msg, func(ctx sdk.Context) error {
-		r, e := k.RecvPacket(ctx, msg)
-		if e == nil && r.Result == channeltypes.NOOP {
-			noop = true
-		}
-		return e
-	})
-	res.Events, res.Panic = evs, pan
-	if err != nil {
-		res.Err = err
+	r := coreTx(s, k, peer, msg)
+	evs := r.Events
+	res.Events, res.Panic = evs, r.Panic
+	if r.Panic != "" {
 		return res
 	}
-	if pan != "" {
+	if r.Err != nil {
+		res.Err = r.Err
 		return res
 	}
-	if noop {
+	if resp, ok := response[*channeltypes.MsgRecvPacketResponse](r); ok && resp.Result == channeltypes.NOOP {
 		res.Err = fmt.Errorf("no-op: packet already received")
 		return res
 	}
@@ -306,18 +337,11 @@ func CoreAck(s *State, k *ibckeeper.Keeper, peer *State, pkt channeltypes.Packet
 		return nil, fmt.Errorf("source channel not found"), ""
 	}
 	msg := channeltypes.NewMsgAcknowledgement(pkt, ack, fakeProof, proofHeight(s.Ctx, k, client), relayer())
-	noop := false
-	evs, err, pan = coreTx(s, k, peer, msg, func(ctx sdk.Context) error {
-		r, e := k.Acknowledgement(ctx, msg)
-		if e == nil && r.Result == channeltypes.NOOP {
-			noop = true
-		}
-		return e
-	})
-	if err == nil && noop {
-		err = fmt.Errorf("no commitment: packet already acknowledged or timed out")
+	r := coreTx(s, k, peer, msg)
+	if resp, ok := response[*channeltypes.MsgAcknowledgementResponse](r); ok && r.Err == nil && resp.Result == channeltypes.NOOP {
+		return r.Events, fmt.Errorf("no commitment: packet already acknowledged or timed out"), r.Panic
 	}
-	return evs, err, pan
+	return r.Events, r.Err, r.Panic
 }
 
 // CoreTimeout sends MsgTimeout to the chain s that sent pkt (peer = the chain that never received it).
@@ -331,16 +355,9 @@ func CoreTimeout(s *State, k *ibckeeper.Keeper, peer *State, peerK *ibckeeper.Ke
 		next = 1
 	}
 	msg := channeltypes.NewMsgTimeout(pkt, next, fakeProof, proofHeight(s.Ctx, k, client), relayer())
-	noop := false
-	evs, err, pan = coreTx(s, k, peer, msg, func(ctx sdk.Context) error {
-		r, e := k.Timeout(ctx, msg)
-		if e == nil && r.Result == channeltypes.NOOP {
-			noop = true
-		}
-		return e
-	})
-	if err == nil && noop {
-		err = fmt.Errorf("no commitment")
+	r := coreTx(s, k, peer, msg)
+	if resp, ok := response[*channeltypes.MsgTimeoutResponse](r); ok && r.Err == nil && resp.Result == channeltypes.NOOP {
+		return r.Events, fmt.Errorf("no commitment"), r.Panic
 	}
-	return evs, err, pan
+	return r.Events, r.Err, r.Panic
 }
